@@ -39,6 +39,8 @@ def gen_cases(rng, spec, n):
             c = kgen.gen_resource(rng, i)
         elif base == 'victim':
             c = kgen.gen_intr(rng, i)
+        elif base == 'chain':
+            c = kgen.gen_chain(rng, i)
         elif base == 'store':
             c = kgen.gen_store(rng, i, malformed=malformed)
         else:
